@@ -680,6 +680,9 @@ func (g *Gen) stmt(depth int) []Stmt {
 	case 6:
 		return g.numFor(depth, d)
 	case 7:
+		if g.R.Chance(12) {
+			return g.genforFalse(d)
+		}
 		return g.genFor(depth, d)
 	case 8:
 		g.use("do")
@@ -768,8 +771,11 @@ func (g *Gen) stmt(depth int) []Stmt {
 		}
 		return g.nestedBlockClosure(d)
 	case 40:
-		if g.R.Bool() {
+		switch g.R.Intn(3) {
+		case 0:
 			return g.goCallHandler(d)
+		case 1:
+			return g.handlerReinstall(d)
 		}
 		return g.nilCompareHandlers(d)
 	case 41:
